@@ -15,7 +15,7 @@ RULE = ("Hypothesis-generated hierarchies of 2-5 classes (chains, diamonds D(B,C
         "each declaring level picks a type from Parameter > Number > Integer, Parameter > String, Parameter > Range, Parameter > List or Parameter > Selector (plain slots and allow_None only) and a random subset of slots "
         "(default, doc, label, precedence, bounds, inclusive_bounds, softbounds, step, allow_None, instantiate, constant, "
         "regex, per_instance, allow_refs, pickle_default_value) with values that do or do not conflict with inherited ones; the "
-        "same hierarchy is also built with add_parameter on already created classes; oracle = independent per-slot MRO "
+        "same hierarchy is also built with add_parameter on already created classes or with param.parameterized_class; a class that only inherits the Parameter may get a class-level value (it then holds a copy that the classes below it inherit from); oracle = independent per-slot MRO "
         "resolver for every slot of every class + spec predicate deciding whether creation must fail (merged default vs merged "
         "constraints/type; a None default re-checked only on type change) + invariant on every class that was created: its non-None default satisfies the spec predicate under the slots it actually has. Non-trivial = >=3 declaring classes or a diamond "
         "with a slot taken from a non-adjacent ancestor, or a merged-invalid default, or a type change; distinct = case hash.")
@@ -153,7 +153,17 @@ def _case(draw):
         decls[0] = ["Range", top]
         j = draw(st.integers(1, n - 1))
         decls[j] = ["Range", low]
-    return {"bases": bases, "decls": decls, "via_add_parameter": draw(st.booleans())}
+    # a class that does not declare the Parameter may get a class-level value assigned right after its creation: it then
+    # holds its own Parameter (a copy with that default) and is the nearest holder for the classes below it
+    cls_sets = {}
+    for i in range(1, n):
+        if decls[i] is None and draw(st.booleans()):
+            cls_sets[str(i)] = draw({"num": st.sampled_from([0, 2, 5, 7, 2.5, 15]), "str": st.sampled_from(["a", "ab", "b1"]),
+                                     "range": st.sampled_from([[0, 1], [2, 10], [3, 4.5]]), "list": st.sampled_from([[1], [1, 2], ["a"]]),
+                                     "sel": st.sampled_from([1, 2, 5, "a"])}[family])
+    return {"bases": bases, "decls": decls, "cls_sets": cls_sets,
+            # how the classes come into being: a class statement, add_parameter on an empty class, or param.parameterized_class
+            "via_add_parameter": draw(st.booleans()), "via_factory": draw(st.sampled_from([False, False, True]))}
 
 
 def strategy(tier):
@@ -208,8 +218,16 @@ def execute(case):
     resolved = {}     # i -> dict(slot -> value) for declaring classes
     labels = set()
 
+    copies = {}        # class index -> value assigned at class level on a class that only inherited the Parameter
+
     def declaring_after(i):
-        return [m.idx for m in mirrors[i].__mro__[1:] if hasattr(m, "idx") and decls[m.idx] is not None]
+        return [m.idx for m in mirrors[i].__mro__[1:] if hasattr(m, "idx") and (decls[m.idx] is not None or m.idx in copies)]
+
+    def type_of(j):
+        """Parameter type held by class j (its own declaration, or the one it copied)"""
+        if decls[j] is not None:
+            return decls[j][0]
+        return type_of(declaring_after(j)[0])
 
     def slot_of_kw(k):
         return "_label" if k == "label" else k
@@ -217,6 +235,13 @@ def execute(case):
     def resolve(i):
         if i in resolved:
             return resolved[i]
+        if decls[i] is None:
+            # a copy made by a class-level assignment: every slot as held by the nearest holder, with the new default
+            out = dict(resolve(declaring_after(i)[0]))
+            if "default" in out:
+                out["default"] = copies[i]
+            resolved[i] = out
+            return out
         t, kw = decls[i]
         own = {slot_of_kw(k): _pyval(k, v, fam) for k, v in kw.items()}
         anc = declaring_after(i)
@@ -228,10 +253,10 @@ def execute(case):
                 out[slot] = own[slot]
                 continue
             for k, j in enumerate(anc):
-                if decls[j][0] == "Selector" and slot not in TYPE_SLOTS["Selector"]:
+                if type_of(j) == "Selector" and slot not in TYPE_SLOTS["Selector"]:
                     out[slot] = _UNK        # held by a Selector ancestor in a way this resolver does not model
                     break
-                if slot in TYPE_SLOTS[decls[j][0]]:
+                if slot in TYPE_SLOTS[type_of(j)]:
                     out[slot] = resolve(j)[slot]
                     if k > 0 or (j not in case["bases"][i]):
                         labels.add("slot_from_non_adjacent_ancestor")
@@ -264,10 +289,10 @@ def execute(case):
         if not anc:
             return False
         r = resolve(i)
-        type_change = any(not _is_sub(decls[j][0], t) for j in anc)
+        type_change = any(not _is_sub(type_of(j), t) for j in anc)
         if type_change:
             labels.add("type_change")
-        if t == "Selector" or any(decls[j][0] == "Selector" for j in anc) or any(v is _UNK for v in r.values()):
+        if t == "Selector" or any(type_of(j) == "Selector" for j in anc) or any(v is _UNK for v in r.values()):
             return None            # objects / auto-default / computed check_on_set are not modelled: no prediction
         d = r["default"]
         cfg = {"allow_None": r["allow_None"]}
@@ -300,6 +325,9 @@ def execute(case):
         try:
             if decls[i] is None:
                 K = type(f"K{i}", bases, {})
+            elif case.get("via_factory"):
+                K = param.parameterized_class(f"K{i}", {"x": _mk_param(decls[i], fam)}, list(bases))
+                labels.add("via_parameterized_class")
             elif case["via_add_parameter"]:
                 K = type(f"K{i}", bases, {})
                 K.param.add_parameter("x", _mk_param(decls[i], fam))
@@ -331,6 +359,16 @@ def execute(case):
             break
         classes.append(K)
         if decls[i] is None:
+            v = (case.get("cls_sets") or {}).get(str(i))
+            if v is not None and declaring_after(i):
+                v = _pyval("default", v, fam)
+                try:
+                    K.x = v
+                except (ValueError, TypeError):
+                    res.dontcare += 1        # whether this value is valid for the inherited Parameter is C01's subject
+                    break
+                copies[i] = v
+                labels.add("class_level_value_on_inheriting_class")
             continue
         # ---- every slot of K.param.x against the resolver ---------------------------
         want = resolve(i)
